@@ -7,6 +7,7 @@ id=$1; shift
 props="$@"
 wt=/tmp/mut/$id; sc=/tmp/mut/$id-scratch
 cd /verif
+export VERIF_EVIDENCE_DIR=/verif/work/evidence-seeded
 mkdir -p seeded/$id
 git -C $wt diff > seeded/$id/patch.diff
 cp $sc/out/demo.py seeded/$id/demo.py 2>/dev/null
